@@ -100,6 +100,34 @@ P["C03"] = dict(
     ref="DESIGN.md section 3, C03",
 )
 
+P["C04"] = dict(
+    text="Structure of the page-table operations on all paths: exact leaf entry (clear, frame, flags from Map's own parameters; Unmap clears only "
+         "Present), TLB flush of the changed page after every leaf write and of the recursive entry after every swap, swap/flush/operate/restore/"
+         "flush on the inactive scenario and no entry write on the active scenario (the two tests are correlated, infeasible paths dropped), new "
+         "levels allocated-then-zeroed with the allocation error returned untouched, error cell returned unmodified, region helpers map exactly "
+         "cdiv(size,4096) pages with page and frame advancing together. The recursive-mapping arithmetic of walk and 'other pages unchanged' are not decided.",
+    technique="SSA path ordering + correlated-condition scenario enumeration + polynomial normal forms",
+    ref="DESIGN.md section 3, C04",
+)
+
+P["C05"] = dict(
+    text="W^X derivation decided exhaustively: the four combinations of the section's writable/executable flags are enumerated and the constant "
+         "flag word reaching kernelPDT.Map is folded for each (RW iff writable, NX iff not executable, Present, nothing else); range guard, exact "
+         "page/frame arithmetic of the section loop and of the reservation copy loop as polynomial forms, Init before Map, Activate before every "
+         "nil return, vmm.Init ordering. MMU semantics of the resulting tables are not decided (C04's remainder).",
+    technique="finite path enumeration with constant folding + SSA dominance + polynomial normal forms",
+    ref="DESIGN.md section 3, C05",
+)
+
+P["C07"] = dict(
+    text="Inductive cursor discipline of the reservation allocator (single writer, store = cursor - rounded size under rounded size <= cursor, "
+         "success returns the new cursor, failures store nothing; page-aligned initial value), the unbounded-argument wrap rule on the size "
+         "round-up in EarlyReserveRegion and MapRegion (found and fixed F4), and MapRegion's reserve-then-map structure with exactly cdiv(size,4096) "
+         "consecutive pages/frames. Disjointness over sequences follows from the inductive step; it is not separately mechanised.",
+    technique="writers-of + SSA dominance + unbounded-argument wrap rule (use-dominance) + polynomial normal forms",
+    ref="DESIGN.md section 3, C07",
+)
+
 ALL = ["C%02d" % i for i in range(1, 21)]
 
 def main():
